@@ -142,5 +142,24 @@ def check(case, obs):
     t2 = call(convert, g_before.gated_data)
     obs.claim('commute', not raised(t2) and np.array_equal(np.asarray(t2), np.asarray(g_after.gated_data)),
               'convert(gate(s)) != gate(convert(s))')
+    # the same source object can be converted again, and gated, with the same answers (a conversion must not
+    # leave anything behind in its source that changes later answers)
+    t_again = call(convert, d)
+    obs.claim('repeat', not raised(t_again) and np.array_equal(np.asarray(t_again), tv)
+              and [[float(v) for v in r] for r in t_again.range()] == [[float(v) for v in r] for r in t.range()],
+              'converting the same sample a second time gives other values or limits')
+    if route == 'rfi_mef':
+        r1 = tr.to_rfi(d, chs)
+        m1 = call(tr.to_mef, r1, chs, curves, chs)
+        gb = call(gate.high_low, r1, channels=gch, full_output=True)      # r1 used again after to_mef(r1)
+        ga = call(gate.high_low, m1, channels=gch, full_output=True)
+        ok = not raised(m1) and not raised(gb) and not raised(ga)
+        obs.claim('commute', ok and np.array_equal(np.asarray(gb.mask), np.asarray(ga.mask)),
+                  'MEF step: gating the RFI sample (after it was used as a to_mef source) and gating its MEF '
+                  'conversion keep different events')
+        m2 = call(tr.to_mef, r1, chs, curves, chs)
+        obs.claim('repeat', ok and not raised(m2) and np.array_equal(np.asarray(m2), np.asarray(m1))
+                  and [[float(v) for v in r] for r in m2.range()] == [[float(v) for v in r] for r in m1.range()],
+                  'to_mef of the same RFI sample a second time gives other limits')
     # sanity of the construction: the generated sample does contain saturated events
     obs.claim('saturated_present', int((~mb).sum()) >= 1, 'generator did not place saturated events')
